@@ -545,6 +545,11 @@ def oracle(src, tr, tokens):
                     va = var_key(where.scope_of[id(s)], al[0].asname)
                     if isinstance(va, tuple) and va[0] == "var" and (va[1], al[0].asname) in mixed:
                         k = "U"     # rope evaluates this token through the alias, which is not only an import
+        elif t.kind == "KImportMod" and stmt_at(t.line, (ast.ImportFrom,)) is not None:
+            c = "import"
+            s = stmt_at(t.line, (ast.ImportFrom,))
+            if s.module and "." not in s.module and s.module == t.name and not s.level:
+                k = ("ent", ("mod", 0, s.module))       # the module of an absolute `from m import ..`
         elif t.kind == "KImportMod":
             c = "import"
             s = stmt_at(t.line, (ast.Import,))
@@ -891,6 +896,15 @@ def project_keys(obs):
     o = obs[main]
     info = o.info
     by_pos = {(t.line, t.col): t for t in o.tokens}
+    # `from lib import *` at module level: a name the module does not bind itself is lib's public name
+    star = any(isinstance(n, ast.ImportFrom) and (n.level or 0) == 0 and n.module == stem
+               and any(a.name == "*" for a in n.names) for n in info.tree.body)
+    if star:
+        lib_public = {s_.get_name() for s_ in lib.info.py_scopes[0].table.get_symbols()
+                      if s_.is_local() and not s_.get_name().startswith("_")}
+        for t in o.tokens:
+            if o.key[t.id] in (None, ("builtin",)) and o.cat[t.id] == "name" and t.name in lib_public:
+                keys[(main, t.id)] = (LIBNAME, ("var", ()), t.name) if t.name in libnames else "U"
 
     def imported_entity(name_node):
         t = by_pos.get((name_node.lineno, name_node.col_offset))
@@ -948,13 +962,63 @@ def judge_project(obs):
             c = obs[k[0]].cat[k[1]]
             if kk == "U" and c in ("kw", "attr"):
                 continue
-            if c == "import" or obs[p].cat[i] == "import":
-                # dotted components / aliased names of import statements: judged in the one-module streams
-                if kk == "U" or kq[0] == "module" or (isinstance(kk, tuple) and kk[0] == "module"):
-                    continue
+            if (c == "import" or obs[p].cat[i] == "import") and kk == "U":
+                continue            # dotted components / aliased names of import statements: not static here
             extra.append(k)
         if missing:
             out.append({"kind": "missing", "module": p, "query": i, "tokens": missing})
         if extra:
             out.append({"kind": "extra", "module": p, "query": i, "tokens": extra})
     return out, keys
+
+
+def observe_sequence(files_v1, lib_v2):
+    """one live project: every token of the first version is queried, then lib.py is rewritten THROUGH ROPE
+    (resource.write), then every token of both modules is queried again.  Returns the Observed of the final files with
+    .rope2 / .stray2 from the live project (same layout as observe_project)."""
+    from rope.base.project import Project
+    from rope.contrib import findit
+    final = dict(files_v1)
+    final[LIBNAME] = lib_v2
+    obs1 = {p: observe(src, with_rope=False) for p, src in files_v1.items()}
+    obs = {p: observe(src, with_rope=False) for p, src in final.items()}
+    if any(o is None for o in list(obs1.values()) + list(obs.values())):
+        return None
+    d = tempfile.mkdtemp(prefix="ropeverif-c02-")
+    try:
+        for path, src in files_v1.items():
+            with open(os.path.join(d, path), "w") as f:
+                f.write(src)
+        proj = Project(d, ropefolder=None)
+        try:
+            for path, o in obs1.items():            # step 1: warm every cache
+                res = proj.get_resource(path)
+                for t in o.tokens:
+                    try:
+                        findit.find_occurrences(proj, res, t.offset)
+                    except Exception:  # noqa: BLE001
+                        pass
+            proj.get_resource(LIBNAME).write(lib_v2)  # step 2: the edit, through the rope API
+            by_offset = {(path, t.offset): t.id for path, o in obs.items() for t in o.tokens}
+            for path, o in obs.items():             # step 3
+                res = proj.get_resource(path)
+                o.rope2, o.stray2 = {}, {}
+                for t in o.tokens:
+                    try:
+                        locs = findit.find_occurrences(proj, res, t.offset)
+                    except Exception as e:  # noqa: BLE001
+                        o.rope2[t.id] = "EXC:" + type(e).__name__
+                        continue
+                    ids = []
+                    for l in locs:
+                        k = (l.resource.path, l.offset)
+                        if k in by_offset:
+                            ids.append((l.resource.path, by_offset[k]))
+                        else:
+                            o.stray2.setdefault(t.id, []).append(k)
+                    o.rope2[t.id] = sorted(set(ids))
+        finally:
+            proj.close()
+    finally:
+        shutil.rmtree(d, ignore_errors=True)
+    return obs
